@@ -371,7 +371,10 @@ struct Engine : public vf::Engine {
                 else if (x < 92 && !faultFree) { if (w.chance(1, 2)) { o.kind = H_OOM_COUNTDOWN; o.a = (int64_t)w.below(21); if (w.chance(1, 8)) { static const int neg[] = { -1, -2, -3, -10, -1000 }; o.a = neg[w.below(5)]; } } else o.kind = H_OOM_SET; }      // a negative count means: no countdown
                 else if (x < 94) o.kind = H_OOM_CLEAR;
                 else if (x < 97) { o.kind = H_STRDUP; o.a = (int64_t)w.below((uint64_t)nSlots); o.c = w.small(0, 40); o.b = w.chance(1, 2) ? -1 : w.small(0, 50); int s = (int)w.below(N_SITES); o.s = siteFile(s); o.d = (int64_t)siteLine(s); }
-                else { o.kind = H_CALLOC; o.a = (int64_t)w.below((uint64_t)nSlots); o.b = w.small(1, 8); o.c = w.small(1, 8); int s = (int)w.below(N_SITES); o.s = siteFile(s); o.d = (int64_t)siteLine(s); }
+                else { o.kind = H_CALLOC; o.a = (int64_t)w.below((uint64_t)nSlots); o.b = w.small(1, 8); o.c = w.small(1, 8); int s = (int)w.below(N_SITES); o.s = siteFile(s); o.d = (int64_t)siteLine(s);
+                    if (w.chance(1, 6)) {      // a product that does not fit: the C library's calloc answers NULL, whatever the factors look like one by one
+                        static const uint64_t pairs[][2] = { { (uint64_t)1 << 63, 2 }, { ((uint64_t)1 << 61) + 2, 8 }, { 16, ((uint64_t)1 << 60) + 2 }, { (uint64_t)1 << 32, (uint64_t)1 << 32 }, { (uint64_t)1 << 33, ((uint64_t)1 << 31) + 1 }, { 3, 0x5555555555555556ULL } };
+                        size_t k = (size_t)w.below(6); o.b = (int64_t)pairs[k][0]; o.c = (int64_t)pairs[k][1]; } }
             }
             if (o.kind != H_NONE) H.ops.push_back(o);
         }
@@ -594,8 +597,9 @@ struct Engine : public vf::Engine {
                 // does the model expect a failure?
                 bool expectNull = false, lenient = false;
                 bool cOom = false;
-                if (route == 2 && fam == 2) { if (cLevelFails(W)) { expectNull = true; cOom = true; } }   // the countdown runs before the allocator is consulted
-                if (alloc == &failable && !cOom) expectNull = modelFailable(W, file, line) || expectNull;
+                // (a calloc whose product does not fit is refused before it becomes an allocation: neither the countdown nor the failable allocator gets to see it)
+                if (route == 2 && fam == 2 && !overflowingCalloc) { if (cLevelFails(W)) { expectNull = true; cOom = true; } }   // the countdown runs before the allocator is consulted
+                if (alloc == &failable && !cOom && !overflowingCalloc) expectNull = modelFailable(W, file, line) || expectNull;
                 for (size_t k = 0; k < W.wrappers.size(); k++) if (W.wrappers[k] == alloc->actualAllocator() || W.wrappers[k] == alloc) { if (W.wrappers[k]->failIn == 0) expectNull = true; }
                 bool sepNode = GUARD == 0 || route == 1 || (route == 2 && fam == 2);      // the node is a separate allocation: no-guard build, asked for, or the malloc family
                 SimAllocator* nodeFails = 0; long userBalance = 0;
@@ -619,7 +623,7 @@ struct Engine : public vf::Engine {
                 catch (CppUTestFailedException&) { testFailure = true; }
                 HEAP.armed = false;
                 if (HEAP.limitHit) lenient = true;
-                if (overflowingCalloc && p) { fail(W, "C05", "calloc_overflow", sg("op", on), sfmt("op %zu: calloc(%llu, %llu) overflows but returned a block", oi, (unsigned long long)o.b, (unsigned long long)o.c)); if (HEAP.find(p)) { S.live = false; } break; }
+                if (overflowingCalloc && p) { if (W.d->profile == "oom") fail(W, "C15", "calloc_like_the_c_library", sg("op", on), sfmt("op %zu: calloc(%llu, %llu): the product does not fit, the C library's calloc answers NULL; a block was returned", oi, (unsigned long long)o.b, (unsigned long long)o.c)); fail(W, "C05", "calloc_overflow", sg("op", on), sfmt("op %zu: calloc(%llu, %llu) overflows but returned a block", oi, (unsigned long long)o.b, (unsigned long long)o.c)); if (HEAP.find(p)) { S.live = false; } break; }
                 if (testFailure && !lenient && !tooBig) fail(W, "C05", "clean_failure", sg("what", "test failure instead of NULL"), sfmt("op %zu (%s)", oi, on));
                 if (threw && (nothrowUsed || fam == 2 || route != 2)) fail(W, "C05", "clean_failure", sg("what", "bad_alloc from a non-throwing form"), sfmt("op %zu", oi));
                 bool gotNull = !p;
